@@ -31,7 +31,8 @@ def main(tier):
             tagp = "%s|%s" % (entry, prof)
             if cls in ("self", "removed", "ancestor"):
                 if unchecked:
-                    ok = exit_ == "panic" and "Preconditions not met" in (rec.get("msg") or "")
+                    # the panic must be the wrapper's own `expect` on the checked result (top frame = the wrapper), whatever its message says
+                    ok = exit_ == "panic" and (rec.get("frames") or [""])[-1] == "crate::id::NodeId::" + entry
                     want = "panic (checked form fails)"
                 elif cls == "self":
                     want = "Err(%s)" % e2props.e2run.SELF_ERR[op]
